@@ -151,6 +151,17 @@ impl MapSnap {
         None
     }
 
+    /// All record lines of the snapshot that are in `self` but not in `other`, and vice versa.
+    pub fn only(&self, other: &MapSnap) -> (Vec<String>, Vec<String>) {
+        let mut l = vec![];
+        let mut r = vec![];
+        for (a, b) in [(&self.definitions, &other.definitions), (&self.file_definitions, &other.file_definitions), (&self.usages, &other.usages), (&self.usage_by_fixture, &other.usage_by_fixture), (&self.imports, &other.imports)] {
+            l.extend(a.iter().filter(|x| !b.contains(x)).cloned());
+            r.extend(b.iter().filter(|x| !a.contains(x)).cloned());
+        }
+        (l, r)
+    }
+
     /// internal consistency between forward and reverse indices
     pub fn consistency(&self) -> Option<String> {
         if !self.empties.is_empty() {
